@@ -48,3 +48,25 @@ Theorem C08_closed_stays :
   forall cfg n s, st s = Closed -> st (fst (run_succ cfg s n)) = Closed /\ snd (run_succ cfg s n) = true.
 Proof. intros. apply closed_run; auto. Qed.
 Print Assumptions C08_closed_stays.
+
+From Helios Require Import Gen.BreakerGen Proofs.BreakerRefine.
+
+(* The model IS the source: its admission and completion steps are beforeRequest / afterRequest of circuitbreaker.go as go2coq
+   regenerates them on every run (Gen/BreakerGen.v), field for field; times are positive, which every history starting at a
+   positive instant preserves. *)
+Theorem C08_model_is_source_admission :
+  forall cfg s rid l, bwf_cfg cfg -> times_pos s ->
+    cb_beforeRequest (abs_cb cfg s l) (bnow s) = (abs_cb cfg (fst (begin cfg s rid)) l, snd (begin cfg s rid)).
+Proof. exact before_refines. Qed.
+Print Assumptions C08_model_is_source_admission.
+
+Theorem C08_model_is_source_completion :
+  forall cfg s rid ok l,
+    fst (cb_afterRequest (abs_cb cfg s l) (bnow s) ok) = abs_cb cfg (finish cfg s rid ok) (if ok then bnow s else l).
+Proof. exact after_refines. Qed.
+Print Assumptions C08_model_is_source_completion.
+
+Theorem C08_times_positive_invariant :
+  forall cfg s o, bop_wf o -> times_pos s -> times_pos (fst (bstep cfg s o)).
+Proof. exact times_pos_step. Qed.
+Print Assumptions C08_times_positive_invariant.
